@@ -383,11 +383,44 @@ class Family:
                 det=True, binary=None, env=None, extra_args=(), text=None, cwd=None, wellformed=True):
         if text is None:
             text = G.render_script(cmds, self.tb)
-        res = run_opensmt(text, io=io, timeout=timeout, chunks=chunks, binary=binary, env=env, extra_args=extra_args, cwd=cwd)
+        os.makedirs(SCRATCH, exist_ok=True)
+        fd, hpath = tempfile.mkstemp(suffix=".hook", dir=SCRATCH)
+        os.close(fd)
+        env2 = dict(env or {})
+        env2["OPENSMT_VERIF_TRACE"] = hpath
+        res = run_opensmt(text, io=io, timeout=timeout, chunks=chunks, binary=binary, env=env2, extra_args=extra_args, cwd=cwd)
+        dup = False
+        try:
+            seen = {}
+            with open(hpath) as hf:
+                for line in hf:
+                    if not line.startswith('{"e":"frame"'):
+                        continue
+                    try:
+                        ev = json.loads(line)
+                    except Exception:
+                        continue
+                    # the same formula (after the solver's own simplification) inserted twice in one frame,
+                    # or in two frames: the per-frame lists are re-emitted on re-processing, so count per (idx,id)
+                    texts = [a["t"] for a in ev["asserted"]]
+                    key = (ev["idx"], ev["id"])
+                    seen[key] = texts
+                    if len(set(texts)) != len(texts):
+                        dup = True
+            allt = [t for k in seen for t in seen[k]]
+            if len(set(allt)) != len(allt):
+                dup = True
+        except Exception:
+            pass
+        finally:
+            try:
+                os.unlink(hpath)
+            except OSError:
+                pass
         if intl is None:
             intl = self.g.num == INT
         run = {"sid": sid, "cfg": cfg, "kind": kind, "io": io, "base": base or sid, "intl": bool(intl),
-               "cmds": cmds, "res": res, "text": text, "det": det, "wellformed": wellformed}
+               "cmds": cmds, "res": res, "text": text, "det": det, "wellformed": wellformed, "dup": dup}
         self.runs.append(run)
         return run
 
@@ -398,6 +431,7 @@ class Family:
         body = []
         for run in self.runs:
             body += self.run_events(run, mon)
+        tb.true(); tb.false()
         dom = make_dom(tb, self.g)
         if with_fam:
             evs.append({"e": "Fam", "tt": tb.recs, "dom": dom})
@@ -409,7 +443,7 @@ class Family:
         res = run["res"]
         segs, done, tail = split_output(res["out"], len(cmds))
         evs = [{"e": "Run", "sid": run["sid"], "cfg": run["cfg"], "kind": run["kind"], "io": run["io"],
-                "base": run["base"], "intl": run["intl"]}]
+                "base": run["base"], "intl": run["intl"], "dup": bool(run.get("dup", False))}]
         if not run.get("wellformed", True):
             out = res["out"]
             diag = ("(error" in out) or ("syntax error" in out.lower()) or ("Syntax error" in out)
